@@ -22,4 +22,13 @@ theorem inv_loopStop (s s' : State) (l : LId) (h : Inv s) (hs : step s (.loopSto
     simp only [Option.some.injEq] at hs; subst hs; close_inv
   · simp at hs
 
+set_option maxHeartbeats 32000000 in
+theorem inv_loopResume (s s' : State) (l : LId) (h : Inv s) (hs : step s (.loopResume l) = some s') : Inv s' := by
+  obtain ⟨h1, h2, h3, h4, h5, h6, h7, h8, h9, h10, h11, h12, h13, h14, h15, h16, h17, h18, h19, h20, h21, h22, h23⟩ := h
+  simp only [step] at hs
+  split at hs
+  · rename_i hg
+    simp only [Option.some.injEq] at hs; subst hs; close_inv
+  · simp at hs
+
 end AiutiVerif.Cache.LTS
